@@ -789,7 +789,7 @@ func init() {
 						same = false
 					}
 				}
-				x.check(same, "siblings=Style~RemoveStyle same-boundary-mode", "", "Style and RemoveStyle resolve their ranges alike", fmt.Sprintf("Style resolves its range with %v, RemoveStyle with %v", keysOf(a), keysOf(b)))
+				x.check(same, "siblings=Style~RemoveStyle same-boundary-mode", x.fpos(x.fn(crdtPkg+".(*Tree).Style")), "Style and RemoveStyle resolve their ranges alike", fmt.Sprintf("Style resolves its range with %v, RemoveStyle with %v", keysOf(a), keysOf(b)))
 			}
 			if n < 3 {
 				x.C.Vacuous(x.id()+" range functions", n, 3)
